@@ -3,10 +3,10 @@ CONSTANTS
   Streams = {1, 2}
   Policies = {"rfc9218"}
   MaxFrames = 3
-  MaxData = 2
-  MaxWin = 2
-  MaxMF = 2
-  NegWin = 1
+  MaxData = 1
+  MaxWin = 1
+  MaxMF = 1
+  NegWin = 0
   Urg = {0, 3}
 INVARIANTS TypeOK NoStuckPop UrgencyOrder RunToCompletion BoundedWait RingsConsistent
 PROPERTIES PolicyRefinesAny ControlFirst WindowsRespected
